@@ -87,7 +87,7 @@ func main() {
 	if *tier == "thorough" {
 		cfg.Tier = 1
 		cfg.Witnesses = 6
-		cfg.Deadline = time.Now().Add(40 * time.Minute)
+		cfg.Deadline = time.Now().Add(90 * time.Minute)
 		cfg.xcheckEvery = 2
 	} else {
 		cfg.Witnesses = 2
